@@ -23,7 +23,8 @@ from vp.harness import Result, ok, under_test, violation
 PROPERTY = "C18"
 RULE = (
     "Hypothesis draws (summand tree, index pools, substitution map, subs|xreplace, whether the key symbols of the map "
-    "are the cached objects or equal-but-distinct ones created after sympy's cache was cleared). "
+    "are the cached objects or equal-but-distinct ones created after sympy's cache was cleared, container kind of "
+    "the top-level pools: list|tuple|generator|map|reversed|dict keys|iterator). "
     "Non-trivial: (>=2 indices or a nested PoolSum) and the summand depends on >=1 of its"
     " indices. Distinct = distinct descriptor hash."
 )
@@ -108,11 +109,35 @@ def strategy(tier):
         # the key symbols of the substitution are equal to, but not the same objects as, the symbols inside the
         # sum (SymPy's symbol cache is an LRU cache that large models overflow; here it is cleared explicitly)
         "fresh_key_objects": st.booleans(),
+        # how the top-level pools are handed over: the signature says `Iterable`, so one-shot iterables are legal
+        "pool_kind": st.sampled_from(POOL_KINDS),
     })
+
+
+POOL_KINDS = ["list", "list", "tuple", "generator", "map", "reversed", "dict_keys", "iter"]
+
+
+def _pool(values, kind):
+    values = list(values)
+    if kind == "tuple":
+        return tuple(values)
+    if kind == "generator":
+        return (v for v in values)
+    if kind == "map":
+        return map(lambda v: v, values)  # noqa: C417
+    if kind == "reversed":
+        return reversed(values[::-1])
+    if kind == "dict_keys" and len(set(values)) == len(values):
+        return dict.fromkeys(values).keys()
+    if kind == "iter":
+        return iter(values)
+    return values
 
 
 def fixed_cases(tier):
     return [
+        *[{"expr": ["f", ["sym", "i"], ["sym", "j"]], "indices": [["i", ["1", "2"]], ["j", ["0", "1", "1"]]],
+           "subs": [], "mode": "subs", "pool_kind": kind} for kind in POOL_KINDS[1:]],
         # witnesses of F18 (subs on a bound index / cleanup of an unused multi-valued index)
         {"expr": ["f", ["sym", "i"], ["sym", "j"]], "indices": [["i", ["1", "2"]], ["j", ["0", "1"]]],
          "subs": [["i", ["num", "3"]]], "mode": "subs"},
@@ -315,8 +340,10 @@ def run_case(desc) -> Result:
     depends = bool(body_free & idx_names)
     nontrivial = (len(indices) >= 2 or nested) and depends
 
+    pool_kind = desc.get("pool_kind", "list")
+    labels.append(f"pool_kind={pool_kind}")
     ps = under_test(
-        "PoolSum()", PoolSum, build(body), *[(_sym(n), [_num(v) for v in p]) for n, p in indices]
+        "PoolSum()", PoolSum, build(body), *[(_sym(n), _pool([_num(v) for v in p], pool_kind)) for n, p in indices]
     )
     ref = ref_sum(body, indices, {})
 
